@@ -75,6 +75,13 @@ def cmdSearch (j : Json) : Except String Json := do
     return toJson (Search.exists_ id store)
   | _ => throw "search: bad op"
 
+def cmdSecure (j : Json) : Except String Json := do
+  let fs ← Secure.parseFs (← j.getObjValAs? (List Json) "fs")
+  match Secure.scrub fs with
+  | .panic => return Json.mkObj [("panic", true), ("leaks", toJson ([] : List Nat)), ("handled", Secure.handledF fs)]
+  | .ok fs' => return Json.mkObj [("panic", false), ("leaks", toJson (Secure.secretsF fs')), ("handled", Secure.handledF fs),
+      ("secrets", toJson (Secure.secretsF fs))]
+
 def dispatch (j : Json) : Except String Json := do
   let cmd ← j.getObjValAs? String "cmd"
   match cmd with
@@ -85,6 +92,7 @@ def dispatch (j : Json) : Except String Json := do
   | "engine" => cmdEngine j
   | "startup" => cmdStartup j
   | "search" => cmdSearch j
+  | "secure" => cmdSecure j
   | "ping" => return "pong"
   | _ => throw s!"unknown cmd {cmd}"
 
